@@ -595,3 +595,63 @@ def r10_8_each_class_once(ctx, rid='R10.8'):
                 '%s recurses over __bases__ without remembering which classes it has visited: with diamond inheritance (D(B, C), B(A), '
                 'C(A), all registered) A.%s is called twice' % (f.fi.qual, hook))
     r.done()
+
+
+def r11_7_per_call_loader(ctx, rid='R11.7'):
+    """The constructor objects are shared by all calls of a load function (PyYAML resumes their generators later, possibly after
+    another call has started). What they use of the current call they take from their parameters."""
+    P = ctx.P
+    r = ctx.rule(rid, 'Constructor.__call__ constructs the attribute mapping with the loader it was called with (its parameter), not with '
+                      'state kept on the shared constructor object', floor=1)
+    f = fn(P, CTOR + '__call__')
+    lp = f.fi.params[1]
+    cms = [c for c in f.walk() if isinstance(c, ast.Call) and call_name(c) == 'construct_mapping' and f.live(c)]
+    if not cms:
+        r.fail(f.key('no-construct-mapping'), f.loc(), 'Constructor.__call__ does not call construct_mapping')
+    for c in cms:
+        recv = norm(c.func.value) if isinstance(c.func, ast.Attribute) else ''
+        r.check(recv == lp, 'construct_mapping is called on the parameter %s' % lp, f.key('construct-mapping-receiver'), f.loc(c),
+                'construct_mapping is called on %s: the constructor object is shared between calls, so after the yield another call\'s '
+                'loader (with its own table of constructed objects) finishes this object' % recv)
+        deep = [k for k in c.keywords if k.arg == 'deep']
+        r.check(len(deep) == 1 and isinstance(deep[0].value, ast.Constant) and deep[0].value.value is True, 'construct_mapping(.., deep=True)',
+                f.key('construct-mapping-deep'), f.loc(c), 'construct_mapping is not called with deep=True: sub-objects are still empty '
+                'shells when the type check and __init__ see them')
+    r.done()
+
+
+def r04_10_key_test_table(ctx, rid='R04.10'):
+    """Truth table of the key test in __strip_extra_attributes: a pair is rejected unless its key is a scalar *and* tagged str."""
+    P = ctx.P
+    from ..dtable import Evaluator, text_oracle, Unsupported
+    r = ctx.rule(rid, 'a key is rejected exactly when it is not a ScalarNode or not tagged str (truth table over the two atoms)', floor=1)
+    g = fn(P, CTOR + '__strip_extra_attributes')
+    gnode = g.fi.params[1]
+    loops = [l for l in g.walk() if isinstance(l, ast.For) and norm(l.iter) == '%s.value' % gnode and isinstance(l.target, ast.Tuple)]
+    if not loops:
+        raise AnalysisError('anchor missing: the pair loop of Constructor.__strip_extra_attributes')
+    lo = loops[0]
+    kv = norm(lo.target.elts[0])
+    A, B = 'isinstance(%s, yaml.ScalarNode)' % kv, "%s.tag == 'tag:yaml.org,2002:str'" % kv
+
+    class _Body:
+        body = lo.body
+    ok = True
+    shown = {}
+    for a in (False, True):
+        for b in (False, True):
+            try:
+                ocs = Evaluator(text_oracle({A: a, B: b})).run(_Body)
+            except Unsupported as e:
+                r.fail(g.key('key-test-shape'), g.loc(lo), 'the pair loop is no longer a loop-free decision (%s)' % e)
+                return r.done()
+            kinds = {oc.kind for oc in ocs}
+            want = {'raise'} if not (a and b) else ({'fall'} if 'raise' not in kinds else kinds)
+            shown[(a, b)] = sorted(kinds)
+            if (not (a and b) and kinds != {'raise'}) or ((a and b) and 'raise' in kinds):
+                ok = False
+    r.check(ok, 'key test: raise <=> not (ScalarNode and str tag)', g.key('key-test-table'), g.loc(lo),
+            'the key test of __strip_extra_attributes does not reject exactly the keys that are not str-tagged scalars (outcomes by '
+            '(is ScalarNode, tag == str): %s): e.g. a merge key `<<` or an int key passes, and what PyYAML merges in is constructed '
+            'unchecked' % shown)
+    r.done()
